@@ -212,8 +212,8 @@ impl Log {
     }
     fn on_iteration(&mut self, cpu: &mut Cpu, pc_before: u32, opcode: u16, state: u32) {
         self.iters += 1;
-        if cpu.vh_pc() == self.exit_addr {
-            self.pend_at_exit = !cpu.vh_pending().is_empty();
+        if cpu.vh_pc() == self.exit_addr && !cpu.vh_pending().is_empty() {
+            self.pend_at_exit = true; // sticky: what the run does afterwards must not undo the selection
         }
         if cpu.vh_pending().len() > 64 {
             // a guest program that is interrupted faster than it can return is a driver mistake: stop it
@@ -489,6 +489,15 @@ pub fn prog_fail(kind: u32) -> Program {
         3 => {
             a.mov_l_imm(0, 99);
             a.trapa(0)                                          // unsupported system call
+        }
+        5 | 6 => {
+            // the first word of a two-word instruction in the LAST two bytes of a mapped region (end of DRAM / end of
+            // the vector area): its extension word cannot be fetched - the error is reported for THIS instruction
+            let at: u32 = if kind == 5 { 0x5ffffe } else { 0x0000fe };
+            a.mov_l_imm(2, at);
+            a.mov_w_imm(3, if kind == 5 { 0x5a41 } else { 0x7900 });   // JMP @aa:24 / MOV.W #xx:16,R0
+            a.mov_w_store_ind(3, 2);
+            a.jmp_ind(2)
         }
         _ => a.w(0x0180),                                       // SLEEP
     }
@@ -772,6 +781,8 @@ pub fn run_run_program(args: &Args) -> Result<()> {
         (prog_fail(2), 1000, false),
         (prog_fail(3), 1000, false),
         (prog_fail(4), 1000, false),
+        (prog_fail(5), 1000, false),
+        (prog_fail(6), 1000, false),
         (prog_count(120, 0), 100_000, false),
         (prog_hostile(0), 2000, false),                      // slow bus, one instruction charged 98 states: booked in full (x the speed factor)
         (prog_ram_timer(40), 100_000, false),                // 6-state instructions from on-chip RAM under a running timer
